@@ -5,3 +5,6 @@ import rules_asm  # noqa
 prop("C04", ["T-ASM-SIZE", "T-HANDBUILT", "T-ASMLINE-SIBLINGS", "T-OPT-SIZE"])
 prop("C13", ["T-ASM-MODE"])
 prop("C17", ["T-ASM-PORT"])
+import rules_tables  # noqa
+prop("C01", ["T-PREC", "T-BRANCH", "T-CMPXFORM"])
+prop("C03", ["T-LB-EQUIV", "T-LB-RANGE", "T-ASMLINE-SIBLINGS", "T-HANDBUILT", "T-CMPXFORM"])
